@@ -99,6 +99,13 @@ IfExprs(tier) ==
      {"ext1(if " \o c \o " then " \o a \o " else " \o b \o ")" : c \in Conds, a \in Branches, b \in {"ext1(4)", "nil", "5"}}
 \cup {"ext1(if " \o c \o " then " \o a \o " elseif " \o d \o " then " \o b \o " else 9)" :
         c \in {"false", "nil", "extf()", "ext1(1)"}, d \in {"true", "ext1(5)", "extf()", "t", "nil"}, a \in {"1", "extn()"}, b \in {"ext1(6)", "false", "nil"}}
+\* an if-expression AS A CONDITION (only its truthiness is used, but every branch expression still runs at most once)
+\cup {"if if " \o c \o " then " \o a \o " else " \o b \o " then ext1(7) else ext1(8) end" : c \in Conds, a \in Branches, b \in {"ext1(4)", "nil", "5", "extf()"}}
+\cup {"if (if " \o c \o " then " \o a \o " else " \o b \o ") then ext1(7) elseif if " \o c \o " then " \o b \o " else " \o a \o " then ext1(8) end" :
+        c \in {"ext1(1)", "extf()", "t"}, a \in {"ext1(2)", "extf()", "extn()", "nil", "false"}, b \in {"ext1(4)", "extf()", "5"}}
+\cup {"local n = 0 while if " \o c \o " then " \o a \o " else " \o b \o " do n = n + 1 ext1(7) break end ext1(n)" : c \in {"ext1(1)", "extf()"}, a \in Branches, b \in {"ext1(4)", "nil"}}
+\cup {"repeat ext1(7) until if " \o c \o " then " \o a \o " else " \o b : c \in {"ext1(1)", "extf()"}, a \in {"ext1(2)", "extf()", "nil", "true"}, b \in {"ext1(4)", "true"}}
+\cup {"ext1(not (if " \o c \o " then " \o a \o " else " \o b \o "))" : c \in {"ext1(1)", "extf()"}, a \in {"ext1(2)", "extf()", "nil"}, b \in {"ext1(4)", "nil"}}
 \cup (IF tier = "thorough"
       THEN {"ext1(if " \o c \o " then " \o a \o " elseif " \o d \o " then " \o b \o " elseif " \o e \o " then 7 else 9)" :
               c \in {"false", "ext1(1)"}, d \in {"ext1(5)", "extf()", "nil"}, e \in {"true", "ext1(8)", "extf()"}, a \in {"1", "extn()"}, b \in {"ext1(6)", "false"}}
@@ -210,6 +217,22 @@ ShadowShapes(group) ==
     \cup Shadow("_G", GMock, GMock2, "_G.assert(ext1(3))")     \* aliases of the global are outside the rule: the argument is truthy
   ELSE {}
 
+\* ---- nested blocks: wrappers that the default rules peel off (do, `if true`, an unknown condition) around a block that
+\* ends -- or does not end -- with a last statement (return / break / continue), at depth 1..3, alone and inside loops.
+\* remove_empty_do, remove_unused_if_branch, filter_after_early_return and remove_unused_while must keep every last statement.
+BlockWraps == << <<"do ", " end">>, <<"if true then ", " end">>, <<"if ext1(9) then ", " end">>, <<"do do end ", " end">>, <<"if false then ext1(8) else ", " end">> >>
+W(k, x) == BlockWraps[k][1] \o x \o BlockWraps[k][2]
+BlockLeaves == {"return ext1(1)", "return", "ext1(1)", "", "local u = ext1(1)", "do end"}
+NestedBlocks(tier) ==
+     {W(i, l) \o " ext1(2) return ext1(3)" : i \in 1..Len(BlockWraps), l \in BlockLeaves}
+\cup {W(i, W(j, l)) \o " ext1(2) return ext1(3)" : i \in 1..Len(BlockWraps), j \in 1..Len(BlockWraps), l \in BlockLeaves}
+\cup {W(i, W(j, W(k, l))) \o " ext1(2)" : i \in {1, 2}, j \in {1, 2, 4}, k \in {1, 2}, l \in {"return ext1(1)", "return", ""}}
+\cup {"ext1(0) " \o W(i, W(j, "")) \o " " \o W(j, W(i, "return ext1(1)")) \o " ext1(2)" : i \in 1..3, j \in 1..3}
+\cup {"for i = 1, 3 do ext1(i) " \o W(i, W(j, l)) \o " ext1(i, 5) end ext1(6)" : i \in {1, 2, 3}, j \in {1, 2, 4}, l \in {"break", "continue", "return ext1(1)", ""}}
+\cup {"local n = 0 while true do n = n + 1 ext1(n) " \o W(i, W(j, "break")) \o " end ext1(6)" : i \in {1, 2}, j \in {1, 2, 4}}
+\cup {"local n = 0 repeat n = n + 1 " \o W(i, W(j, l)) \o " ext1(n) until n >= 2 ext1(6)" : i \in {1, 2}, j \in {1, 2}, l \in {"break", "continue", ""}}
+\cup {"local function g() " \o W(i, W(j, "return ext1(1), ext1(2)")) \o " end ext1(g())" : i \in 1..Len(BlockWraps), j \in 1..Len(BlockWraps)}
+
 Family(name, tier) ==
   CASE name = "unused"   -> UnusedLocals(tier)
     [] name = "removed"  -> RemovedCalls(tier)
@@ -217,12 +240,13 @@ Family(name, tier) ==
     [] name = "method"   -> MethodCalls(tier)
     [] name = "ifexpr"   -> IfExprs(tier)
     [] name = "scope"    -> ScopeShapes(tier)
+    [] name = "blocks"   -> NestedBlocks(tier)
     [] name = "shadow16" -> ShadowShapes("c16")
     [] name = "shadow17" -> ShadowShapes("c17")
     [] OTHER -> {}
 \* which families belong to which group of properties (the rules of the group act on these shapes)
 FamiliesOf(group) ==
-  CASE group = "c01" -> {"unused", "ifexpr", "scope"}  \* default rules: unused variables, static evaluation of if-expressions, scope tracking
+  CASE group = "c01" -> {"unused", "ifexpr", "scope", "blocks"}  \* default rules: unused variables, static evaluation of if-expressions, scope tracking
     [] group = "c06" -> {"compound", "ifexpr"}         \* lowering rules
     [] group = "c16" -> {"unused", "method", "scope", "shadow16"}  \* group_local_assignment, remove_nil_declaration, remove_method_call, local function conversions
     [] group = "c17" -> {"removed", "shadow17"}                    \* remove_assertions, remove_debug_profiling
